@@ -104,6 +104,9 @@ def symbolise(ctx, node, namer=None, keep=DISCRIMINATORS, data="keep", list_vari
     d = node.data
     if node.tag == "registration" and isinstance(d, bytes) and len(d) == 4 and data != "blob":
         d = H.symbytes(ctx, namer.next("reg"), 4)          # a number blob: every 32-bit value
+    if d is not None and data == "text" and isinstance(d, bytes) and 1 <= len(d) <= 16 and node.tag != "registration" and not node.children:
+        # a short text leaf: two arbitrary bytes (any encoding issue of the class shows on non-ASCII values)
+        d = H.symbytes(ctx, namer.next("txt"), 2)
     if d is not None and data == "blob":
         L = ctx.int(namer.next("len"), 0, 4096)
         d = H.blob(ctx, namer.next("data"), L)
